@@ -239,6 +239,25 @@ def approx_only_compares_n_with_hardware(p, N):
 _ALL_PATHS = []     # the paths of the entry currently judged (set by check_init) - lets path_conditions tell relevant facts apart
 
 
+def guard_note(p):
+    """If path p is selected by a persistent flag that the same function sets and later clears with plain statements on its other
+    paths, say so: an exception between the two leaves the flag set for good."""
+    for k, v in p.state.d.items():
+        if not (isinstance(k, tuple) and k[0] == 'fact' and isinstance(k[1], tuple) and k[1][0] == 'glob' and v[0] >= 1):
+            continue
+        F = k[1]
+        for q in _ALL_PATHS:
+            sets = [i for i, e in enumerate(q.events) if e[0] == 'store' and e[1] == F and isinstance(e[2], Poly) and (e[2].as_int() or 0) != 0]
+            clears = [i for i, e in enumerate(q.events) if e[0] == 'store' and e[1] == F and isinstance(e[2], Poly) and e[2].as_int() == 0]
+            if sets and clears and sets[0] < clears[-1]:
+                between = [e for e in q.events[sets[0]:clears[-1]] if e[0] == 'call']
+                return ('; `%s` is a guard this function sets itself (%s) and clears again only by a plain statement at the end (%s): if anything '
+                        'in between throws (%s), the guard stays set and every later initTaskingSystem() takes this path'
+                        % (F[1].split('::')[-1], q.events[sets[0]][3], q.events[clears[-1]][3],
+                           'e.g. ' + between[0][1].split('::')[-1] if between else 'operator new / the handle constructor'))
+    return ''
+
+
 def path_conditions(p, N):
     """the facts other than the range of n that single out path p, as text (which early return / branch was taken).  A fact is
     mentioned only if some other path with the opposite fact leaves different events behind (otherwise it is an unrelated
@@ -611,8 +630,9 @@ def check_init(ctx, cfg, tus, tag, G, GT):
                 ctx.ok(R4, inst, '`%s` is already set on this path and stays set' % gname, tu.fn_loc(f))
             elif hv is None:
                 bad = True
-                report(ctx, p, R4, inst, 'this path returns without setting `%s`, the state numTaskingThreads() tests: the system still '
-                       'reports 0 threads after initTaskingSystem' % gname, tu.fn_loc(f),
+                report(ctx, p, R4, inst, 'this path returns without installing a new handle in `%s`, the state numTaskingThreads() tests: a '
+                       'first initialisation leaves the system reporting 0 threads, a repeated one keeps the previous setting%s%s'
+                       % (gname, path_conditions(p, N), guard_note(p)), tu.fn_loc(f),
                        '%s|%s|initTaskingSystem|%s:handle-not-replaced' % (R4, file, cfg))
             elif hv.as_int() == 0:
                 bad = True
@@ -1000,6 +1020,55 @@ def check_enki(ctx, tu, tag):
         ctx.broken('%s: no thread-creation call found in enki::TaskScheduler (expected one in StartThreads)' % R5)
         return n
     want = Poly.atom(loc) - 1
+    # ---- the worker threads that exist when Initialize(k) returns are the ones created by this call: a scheduler that already
+    #      has threads must terminate them first.  "has threads" = the bool member that the thread-creating function sets to true
+    #      and that some other member clears.
+    flag = None
+    for g, cg, b, nd in sites:
+        sets = {tu.member_of_this(tu.kids(x)[0]) for _b, _i, x in cg.stmts() if x.get('kind') == 'BinaryOperator' and x.get('opcode') == '='
+                and tu.kids(x)[1].get('kind') == 'CXXBoolLiteralExpr' and tu.kids(x)[1].get('value') is True}
+        clears = set()
+        for h in tu.functions.values():
+            if h['dep'] or tu.cfg(h) is None or h.get('recid') != g.get('recid') or h['id'] == g['id']:
+                continue
+            clears |= {tu.member_of_this(tu.kids(x)[0]) for _b, _i, x in tu.cfg(h).stmts() if x.get('kind') == 'BinaryOperator'
+                       and x.get('opcode') == '=' and tu.kids(x)[1].get('kind') == 'CXXBoolLiteralExpr' and tu.kids(x)[1].get('value') is False}
+        tested = {tu.member_of_this(tu.node(bb.cond)) for bb in cg.blocks.values() if bb.cond and tu.node(bb.cond) is not None}
+        cand = (sets & clears & tested) - {None}
+        if len(cand) == 1:
+            flag = cand.pop()
+    n += 1
+    inst = 'enki::TaskScheduler::Initialize(uint32_t) restarts its threads [%s]' % tag
+    if flag is None:
+        ctx.undecided(R5, inst, 'cannot identify the member that records whether worker threads exist', tu.fn_loc(f))
+    else:
+        hb = ('field', ('this',), flag)
+        stale = None
+        for p in rets:
+            if p.bounds(hb)[1] < 1:
+                continue                        # no threads existed on entry
+            cleared = any(e[0] == 'store' and e[1] == hb and isinstance(e[2], Poly) and e[2].as_int() == 0 for e in p.events)
+            terminated = any(e[0] == 'call' and e[1] == 'enki::ThreadTerminate' for e in p.events)
+            if not cleared and not terminated:
+                stale = p
+                break
+        if stale is None:
+            ctx.ok(R5, inst, 'every path on which threads already exist (%s) stops them before the new count takes effect' % flag, tu.fn_loc(f))
+        else:
+            st = next((e for e in stale.events if e[0] == 'store' and e[1] == loc), None)
+            pcs = [k2[1] for k2 in stale.state.d if isinstance(k2, tuple) and k2[0] == 'pc']
+            entry_only = all(isinstance(a, tuple) and a and (a[0] == 'param' or (a[0] == 'field' and a[1] == ('this',)) or a[0] == 'glob')
+                             for r in pcs for a in r.p.atoms(deep=False))
+            msg = ('a path of Initialize(k) on which worker threads already exist (%s) records the new count (%s = %s%s) and returns without '
+                   'stopping them%s: the threads of the previous, larger configuration keep running task partitions, so parallel_for bodies '
+                   'run on more threads than the k that GetNumTaskThreads() / numTaskingThreads() now report'
+                   % (flag, field, show_val(stale.mem(loc)), ' at %s' % st[3] if st else '',
+                      ' (taken when %s)' % ' and '.join(r.show() for r in pcs) if pcs else ''))
+            if stale.approx and pcs and entry_only and all('is not a linear comparison of one value' in a for a in stale.approx):
+                # the only unrefined conditions compare the argument with the scheduler's state on entry: both are free, the path exists
+                ctx.violation(R5, inst, msg, st[3] if st else tu.fn_loc(f), key='%s|%s|TaskScheduler::Initialize|threads-not-restarted' % (R5, file))
+            else:
+                report(ctx, stale, R5, inst, msg, st[3] if st else tu.fn_loc(f), '%s|%s|TaskScheduler::Initialize|threads-not-restarted' % (R5, file))
     for g, cg, b, nd in sites:
         n += 1
         inst = 'thread creation in %s [%s]' % (g['q'], tag)
